@@ -146,10 +146,10 @@ pub fn profile(name: &str) -> Profile {
         },
         "disable" => Profile {
             name: "disable",
-            w_add_attr: 1,
+            w_add_attr: 3,
             w_del_attr: 0,
             w_rename: 0,
-            w_add_dim: 0,
+            w_add_dim: 1,
             w_del_dim: 0,
             w_disable: 6,
             w_rekey: 7,
